@@ -1,8 +1,9 @@
 (* C12 - The script listing and position marker show exactly what executes next. Statements only; proofs in ListingProofs.v.
    Model: BV.Cli (script_lines as built by main(): listing_sections / listing / session_listing, fn_print's marker: marked_line),
    BV.Session (curr_op_seq bookkeeping inside StepScript(InterpreterEnv&) / RewindScript).
-   Proved for sessions over ONE script (btcdeb <script> [stack...]); sessions with scriptPubKey / P2SH / taproot-commitment sections are
-   decided by the pty correspondence only (C12_marker_multi_section is not proved). *)
+   Proved for sessions over ONE script (btcdeb <script> [stack...]) and for legacy spends with a scriptSig and a (non-P2SH) scriptPubKey
+   section; sessions with a P2SH or taproot-commitment section are decided by the pty correspondence only
+   (C12_marker_p2sh_and_taproot_sections is not proved). *)
 From BV Require Import Base Script Interp Session Value Cli ListingProofs.
 Local Open Scope Z_scope.
 
@@ -39,7 +40,37 @@ Theorem C12_nothing_pending_after_the_last_operation : forall v,
   marker_inv v -> i_pc v = [] -> marked_line (plain_listing (e_script (i_e v))) (i_seq v) = None.
 Proof. exact marker_none_at_end. Qed.
 
+(* --- legacy spends: scriptSig, "<<< scriptPubKey >>>" header, scriptPubKey (bare / P2PKH / multisig outputs) *)
+Theorem C12_two_section_listing : forall c script succ stack ed, succ <> [] ->
+  i_p2sh (setup_env c script stack succ ed None) = false -> (has_flag (c_flags c) Gen.Consts.SCRIPT_VERIFY_P2SH && is_p2sh_script succ) = false ->
+  session_listing c (setup_env c script stack succ ed None) = two_listing script succ.
+Proof. exact session_listing_two. Qed.
+
+Theorem C12_two_section_invariant_start : forall c script succ stack ed, i_p2sh (setup_env c script stack succ ed None) = false ->
+  inv2 script succ (setup_env c script stack succ ed None).
+Proof. exact inv2_init. Qed.
+
+Theorem C12_two_section_invariant_step : forall low_s tap_tweak_ok sha256 c script succ v v', succ <> [] -> p2sh_shape (c_flags c) succ = false ->
+  inv2 script succ v -> Session.dbg_step low_s tap_tweak_ok sha256 c v = (v', SOk) -> inv2 script succ v'.
+Proof. exact inv2_step. Qed.
+
+(* the marker designates the next operation; at the end of the scriptSig it is on the header of the section the next step enters; after the
+   last operation of the scriptPubKey nothing is marked *)
+Theorem C12_two_section_marker : forall script succ v, succ <> [] -> inv2 script succ v ->
+  match i_pc v with
+  | _ :: _ => forall op pc', get_op (i_pc v) = (Some op, pc') ->
+               marked_line (two_listing script succ) (i_seq v) = Some (numbered (i_seq v) (op_line op))
+  | [] => if (match i_succ v with [] => false | _ => true end)
+          then marked_line (two_listing script succ) (i_seq v) = Some HDR_SPK
+          else marked_line (two_listing script succ) (i_seq v) = None
+  end.
+Proof. exact (two_sections_marker (fun _ => true) (fun _ _ _ _ => true) (fun b => b)). Qed.
+
 Print Assumptions C12_line_numbers_are_positions.
+Print Assumptions C12_two_section_listing.
+Print Assumptions C12_two_section_invariant_start.
+Print Assumptions C12_two_section_invariant_step.
+Print Assumptions C12_two_section_marker.
 Print Assumptions C12_nothing_marked_past_the_end.
 Print Assumptions C12_listing_is_the_decoding.
 Print Assumptions C12_position_counts_executed_operations.
